@@ -35,6 +35,7 @@ def unit():
             'process_with_backend': FnC(props=('C07', 'C06'), inherits=True, note='plumbing')}),
         Sel('impl StreamCipherSeekCore for BeltCtrCore', members='''
     open spec fn counter_val(c: u128) -> int { c as int }
+    proof fn lemma_counter_val(c: u128) {}
     open spec fn block_pos(&self) -> int { (self.s as int - self.s_init as int) % two128() }
     open spec fn pos_modulus() -> int { two128() }
     proof fn lemma_pos_coherent(&self) {
